@@ -297,6 +297,19 @@ func c08Shapes_(c *work.Ctx) {
 
 // ---- cycles -------------------------------------------------------------------------------------
 
+type C08Tree struct {
+	Name string
+	Kids []C08Tree
+}
+type C08Dir struct {
+	Name    string
+	Entries map[string]C08Dir
+}
+type C08Arr struct {
+	Name string
+	Kids [][1]C08Arr
+}
+
 func c08Cycles(c *work.Ctx) {
 	type mk struct {
 		name string
@@ -379,6 +392,38 @@ func c08Cycles(c *work.Ctx) {
 			s := make([]interface{}, 1)
 			s[0] = s
 			return s
+		}},
+		// cycles closed only through containers of struct VALUES: no pointer member and no interface on the cycle
+		mk{"[]T whose backing array holds the struct that owns the slice", func() interface{} {
+			kids := make([]C08Tree, 1)
+			kids[0].Name = "n"
+			kids[0].Kids = kids
+			return kids
+		}},
+		mk{"struct{Kids []T} reached by value, its slice holding itself", func() interface{} {
+			kids := make([]C08Tree, 2)
+			kids[1].Kids = kids
+			return kids[1]
+		}},
+		mk{"*struct{Kids []T}, the slice holding the pointee", func() interface{} {
+			kids := make([]C08Tree, 1)
+			kids[0].Kids = kids
+			return &kids[0]
+		}},
+		mk{"map[string]T whose value struct holds the map", func() interface{} {
+			m := map[string]C08Dir{}
+			m["self"] = C08Dir{Name: "d", Entries: m}
+			return C08Dir{Entries: m}
+		}},
+		mk{"map[string]T itself, a value struct holding the map", func() interface{} {
+			m := map[string]C08Dir{}
+			m["self"] = C08Dir{Entries: m}
+			return m
+		}},
+		mk{"[][1]T holding the struct that owns the slice", func() interface{} {
+			kids := make([][1]C08Arr, 1)
+			kids[0][0].Kids = kids
+			return kids
 		}},
 		mk{"mutual recursion A<->B cycle", func() interface{} {
 			a := &C08A{N: 1}
